@@ -292,16 +292,16 @@ def for_to_while(sh, lp, ordinal, inv_text, body_prefix):
                 raise ExtractError('R7: unsupported iteration expression %r' % expr)
     label = t[lp['start']:lp['kw_idx']]
     if rev:
-        head = 'let %s = %s; let mut %s: usize = %s.len(); %swhile %s > 0 %s { %s -= 1; let %s = &%s[%s]; %s' % (
+        head = 'let %s: &[_] = %s; let mut %s: usize = %s.len(); %swhile %s > 0 %s { %s -= 1; let %s = &%s[%s]; %s' % (
             s, base, i, s, label, i, inv_text, i, pat, s, i, body_prefix)
     elif enum:
         pm = re.match(r'^\(\s*(%s)\s*,\s*(.*)\)$' % IDENT, pat, re.S)
         if not pm:
             raise ExtractError('R7: enumerate pattern %r' % pat)
-        head = 'let %s = %s; let mut %s: usize = 0; %swhile %s < %s.len() %s { let %s = %s; let %s = &%s[%s]; %s += 1; %s' % (
+        head = 'let %s: &[_] = %s; let mut %s: usize = 0; %swhile %s < %s.len() %s { let %s = %s; let %s = &%s[%s]; %s += 1; %s' % (
             s, base, i, label, i, s, inv_text, pm.group(1), i, pm.group(2), s, i, i, body_prefix)
     else:
-        head = 'let %s = %s; let mut %s: usize = 0; %swhile %s < %s.len() %s { let %s = &%s[%s]; %s += 1; %s' % (
+        head = 'let %s: &[_] = %s; let mut %s: usize = 0; %swhile %s < %s.len() %s { let %s = &%s[%s]; %s += 1; %s' % (
             s, base, i, label, i, s, inv_text, pat, s, i, i, body_prefix)
     return head
 
@@ -463,6 +463,19 @@ def transform_fn(text, spec):
     entry = spec.get('entry')
     if entry:
         edits.append((sh.bopen + 1, sh.bopen + 1, '\n' + entry.rstrip() + '\n'))
+    tail = spec.get('tail')
+    if tail:
+        # before the tail expression: after the last `;` at the top level of the body
+        j = sh.bopen + 1
+        last = sh.bopen + 1
+        while j < sh.bclose:
+            c = m[j]
+            if c in '([{':
+                j = match_bracket(m, j)
+            elif c == ';':
+                last = j + 1
+            j += 1
+        edits.append((last, last, '\n' + tail.rstrip() + '\n'))
 
     # loops
     lspec = spec.get('loops', {})
